@@ -68,7 +68,7 @@ const (
 	vC03Budget     = 3 * time.Hour    // bubble budget (warm-up + operation + settle phases)
 )
 
-var vC03AllOps = []string{"gcp", "findpeer", "getvalue", "searchvalue", "findprovs", "findprovsasync", "putvalue", "provide"}
+var vC03AllOps = []string{"gcp", "findpeer", "getvalue", "searchvalue", "findprovs", "findprovsasync", "putvalue", "provide", "getpubkey"}
 
 // vC03Sc is a scenario; everything else is derived from Seed inside the bubble, so that the
 // same scenario can be re-run with another cancel instant.
@@ -325,6 +325,30 @@ func vC03MakeOp(c *vh.Case, n *vNet, sc *vC03Sc, r *rand.Rand, name string, j in
 				}
 				o.noteReady()
 			}
+		}
+	case "getpubkey":
+		// the ids of simulated peers are sha256 multihashes: the key is not inlined and not in the peerstore, so the
+		// node asks the peer itself and the DHT in parallel; the answers carry no record, a record with garbage, or
+		// never come
+		var id peer.ID
+		if r.Intn(4) != 0 && len(n.IDs) > 0 {
+			id = n.IDs[r.Intn(len(n.IDs))]
+		} else {
+			id = vsim.PeerID("nokey"+tag, 0)
+		}
+		key := "/pk/" + string(id)
+		o.Key = []byte(key)
+		for _, pid := range n.IDs {
+			if r.Float64() < sc.ValFrac/2 {
+				n.S.Peer(pid).Values[key] = record.MakePutRecord(key, []byte("not a public key"))
+			}
+		}
+		o.fn = func(ctx context.Context, o *vC03OpRun) {
+			pk, err := n.D.GetPublicKey(ctx, id)
+			if pk != nil {
+				o.Items = 1
+			}
+			o.Err = err
 		}
 	case "putvalue":
 		key := "/v/val-" + tag
